@@ -26,6 +26,7 @@ ASSUMPTIONS = ["Python callables use parameter names x,y,z as a prefix (optional
 MIN_COUNTS = {"quick": {"nontrivial": 2500, "python_calls_logged": 1200, "wrapper_calls_compared": 2000, "values_read_back": 400},
               "thorough": {"nontrivial": 30000, "python_calls_logged": 9000, "wrapper_calls_compared": 30000, "values_read_back": 3000}}
 CASE_TIMEOUT = 60
+MEM_LIMIT_GB = 6
 
 ARGS = [I(3), I(0), I(-2), R(2.5), S("ab"), S(""), C("c"), Y("s"), L([I(1), I(2), I(3)]), L([]), L([R(1.5), R(2.0)]), L([L([I(1)]), L([I(2), I(3)])]),
         L([S("p"), S("q")]), L([I(1), S("a")])]
